@@ -22,7 +22,9 @@ type fctx struct {
 	nloops   int
 	loop     *loopCtx // innermost enclosing loop, nil at function level
 	tmp      int
+	ptrBacks []*lval // per *T argument of the latest environment call: where the returned record goes (nil: nowhere)
 	lastCallRes []string // result projections of the latest callStmt with no left-hand side
+	optVars  map[*types.Var]bool // locals holding a *T returned by a call: `Option T`, dereferenced explicitly
 }
 
 func (c *fctx) site(p token.Pos) string {
@@ -136,6 +138,9 @@ func (c *fctx) expr(e ast.Expr) string {
 			if c.x.fieldKind(sel.Type()) == kOther {
 				bad("field %s of unsupported type %s", t.Sel.Name, sel.Type().String())
 			}
+			if id, ok := t.X.(*ast.Ident); ok && c.isOptVar(id) { // v.f with v a possibly-nil *T
+				return fmt.Sprintf("(← Go.derefOpt %s %s).%s", c.expr(id), c.site(e.Pos()), leanIdent(t.Sel.Name))
+			}
 			if c.x.kindOf(c.typeOf(t.X)) == kHeapPtr { // p.f: read the record p points to
 				c.useHeap()
 				return fmt.Sprintf("(← Go.heapGet %s %s).%s", c.expr(t.X), c.site(e.Pos()), leanIdent(t.Sel.Name))
@@ -170,6 +175,9 @@ func (c *fctx) expr(e ast.Expr) string {
 	case *ast.CompositeLit:
 		return c.composite(t, c.typeOf(e))
 	case *ast.StarExpr:
+		if id, ok := t.X.(*ast.Ident); ok && c.isOptVar(id) {
+			return fmt.Sprintf("(← Go.derefOpt %s %s)", c.expr(id), c.site(e.Pos()))
+		}
 		if c.x.kindOf(c.typeOf(t.X)) == kPtrStruct {
 			return c.expr(t.X)
 		}
@@ -187,6 +195,11 @@ func (c *fctx) monad() string {
 		return "StateT Heap R"
 	}
 	return "R"
+}
+
+func (c *fctx) isOptVar(id *ast.Ident) bool {
+	v, ok := c.info.ObjectOf(id).(*types.Var)
+	return ok && c.optVars[v]
 }
 
 func (c *fctx) useHeap() {
@@ -367,6 +380,12 @@ func (c *fctx) binary(t *ast.BinaryExpr) string {
 				s = c.expr(o) + ".isEmpty"
 			case kError, kRef, kHeapPtr:
 				s = c.expr(o) + ".isNone"
+			case kPtrStruct:
+				id, ok := o.(*ast.Ident)
+				if !ok || !c.isOptVar(id) {
+					bad("nil comparison of %s at %s", c.typeOf(o).String(), c.site(t.Pos()))
+				}
+				s = c.expr(o) + ".isNone"
 			default:
 				bad("nil comparison of %s at %s", c.typeOf(o).String(), c.site(t.Pos()))
 			}
@@ -377,6 +396,7 @@ func (c *fctx) binary(t *ast.BinaryExpr) string {
 		}
 		switch c.x.kindOf(c.typeOf(t.X)) {
 		case kBool, kU8, kU16, kU32, kU64, kInt, kBytes, kHeapPtr:
+		case kError: // sentinel errors: identity of an error value is the identity of its message (trusted)
 		case kRef: // pointer identity
 			if t.Op == token.EQL {
 				return "(Go.refEq " + c.expr(t.X) + " " + c.expr(t.Y) + ")"
